@@ -1,4 +1,5 @@
 (* C05 -- macro usages.  Property theorems only; proofs live in PP/MacroFacts.v. *)
+From SV Require StringFacts.
 From SV Require Import Eval EvalFacts MacroFacts SplitFacts.
 
 (* Binding of formals: the actual if written, the default (or nothing) for an empty one, the
@@ -85,3 +86,23 @@ Example C05_whole_word_example :   (* body " a+ab*_a a1 a" with a := X: only the
   forallb plain [32;97;43;97;98;42;95;97;32;97;49;32;97] = true /\
   substitute [([97], [88])] [32;97;43;97;98;42;95;97;32;97;49;32;97] = [88;43;97;98;42;95;97;32;97;49;32;88].
 Proof. vm_compute. split; reflexivity. Qed.
+
+(* Ordinary string literals.  A body made of plain stretches and string literals (no quote, backslash or
+   backtick inside) is cut into the runs of each plain stretch and ONE piece per literal, quotes included
+   ([pieces_from]); that piece is copied as it stands -- whatever is inside, a formal's name included. *)
+Theorem C05_string_literal_is_one_piece : forall l c0 rest,
+  forallb StringFacts.seg_ok l = true -> StringFacts.segs_bytes l = c0 :: rest -> is_ascii_ws c0 = false -> (c0 =? 92) = false ->
+  split_text (StringFacts.segs_bytes l) = StringFacts.pieces_from [] false l.
+Proof. exact StringFacts.split_text_segs. Qed.
+
+Theorem C05_string_literals_untouched : forall m s,
+  forallb StringFacts.str_ok s = true -> amap_get m (34 :: s ++ [34]) = None ->
+  StringFacts.piece_out m (34 :: s ++ [34]) = 34 :: s ++ [34].
+Proof. exact StringFacts.literal_untouched. Qed.
+
+(* x "x y" x  with x := 1  gives  1 "x y" 1 *)
+Example C05_string_example :
+  substitute [([120], [49])] [120; 32; 34; 120; 32; 121; 34; 32; 120] = [49; 32; 34; 120; 32; 121; 34; 32; 49] /\
+  split_text [120; 32; 34; 120; 32; 121; 34; 32; 120] =
+    StringFacts.pieces_from [] false [StringFacts.SPlain [120; 32]; StringFacts.SStr [120; 32; 121]; StringFacts.SPlain [32; 120]].
+Proof. split; vm_compute; reflexivity. Qed.
